@@ -6,6 +6,7 @@ import (
 	"go.opentelemetry.io/collector/pdata/pcommon"
 	"go.opentelemetry.io/collector/pdata/plog"
 	"go.opentelemetry.io/collector/pdata/pmetric"
+	"go.opentelemetry.io/collector/pdata/pprofile"
 	"go.opentelemetry.io/collector/pdata/ptrace"
 	"verif.local/simkit"
 )
@@ -40,6 +41,18 @@ func Enrich(tp *simkit.Tape, payload any, extreme bool) {
 				e.attrs(ss.Scope().Attributes(), 4)
 				for k := 0; k < ss.Spans().Len(); k++ {
 					e.span(ss.Spans().At(k))
+				}
+			}
+		}
+	case pprofile.Profiles:
+		for i := 0; i < p.ResourceProfiles().Len(); i++ {
+			rp := p.ResourceProfiles().At(i)
+			e.attrs(rp.Resource().Attributes(), 3)
+			for j := 0; j < rp.ScopeProfiles().Len(); j++ {
+				sp := rp.ScopeProfiles().At(j)
+				e.attrs(sp.Scope().Attributes(), 4)
+				for k := 0; k < sp.Profiles().Len(); k++ {
+					e.profile(sp.Profiles().At(k))
 				}
 			}
 		}
@@ -314,5 +327,95 @@ func (e *enricher) metric(m pmetric.Metric) {
 				qv.SetValue(e.double())
 			}
 		}
+	}
+}
+
+// profile fills the dictionary tables and the remaining scalar fields of a profile; the samples' first value (the
+// generator's item id) stays.
+func (e *enricher) profile(pr pprofile.Profile) {
+	if !e.tp.Chance(1, 2) {
+		return
+	}
+	i32 := func() int32 { return int32(e.tp.Draw(4)) }
+	pr.StringTable().Append("", "cpu", "nanoseconds", "main")
+	for i, n := 0, e.tp.Draw(3); i < n; i++ {
+		vt := pr.SampleType().AppendEmpty()
+		vt.SetTypeStrindex(i32())
+		vt.SetUnitStrindex(i32())
+		vt.SetAggregationTemporality(pprofile.AggregationTemporality(e.tp.Draw(3)))
+	}
+	for i, n := 0, e.tp.Draw(3); i < n; i++ {
+		m := pr.MappingTable().AppendEmpty()
+		m.SetMemoryStart(uint64(e.tp.Draw(3)) << 40)
+		m.SetMemoryLimit(math.MaxUint64)
+		m.SetFileOffset(uint64(e.tp.Draw(5)))
+		m.SetFilenameStrindex(i32())
+		m.AttributeIndices().Append(i32())
+		m.SetHasFunctions(e.tp.Chance(1, 2))
+		m.SetHasFilenames(e.tp.Chance(1, 2))
+		m.SetHasLineNumbers(e.tp.Chance(1, 2))
+		m.SetHasInlineFrames(e.tp.Chance(1, 2))
+	}
+	for i, n := 0, e.tp.Draw(3); i < n; i++ {
+		l := pr.LocationTable().AppendEmpty()
+		if e.tp.Chance(1, 2) {
+			l.SetMappingIndex(i32())
+		}
+		l.SetAddress(uint64(e.tp.Draw(3)) << 33)
+		l.SetIsFolded(e.tp.Chance(1, 2))
+		l.AttributeIndices().Append(i32(), i32())
+		for q, nl := 0, e.tp.Draw(3); q < nl; q++ {
+			ln := l.Line().AppendEmpty()
+			ln.SetFunctionIndex(i32())
+			ln.SetLine(e.int())
+			ln.SetColumn(int64(e.tp.Draw(100)))
+		}
+	}
+	pr.LocationIndices().Append(i32(), i32())
+	for i, n := 0, e.tp.Draw(3); i < n; i++ {
+		f := pr.FunctionTable().AppendEmpty()
+		f.SetNameStrindex(i32())
+		f.SetSystemNameStrindex(i32())
+		f.SetFilenameStrindex(i32())
+		f.SetStartLine(e.int())
+	}
+	for i, n := 0, e.tp.Draw(3); i < n; i++ {
+		a := pr.AttributeTable().AppendEmpty()
+		a.SetKey(e.str())
+		e.value(a.Value(), 2)
+	}
+	for i, n := 0, e.tp.Draw(3); i < n; i++ {
+		u := pr.AttributeUnits().AppendEmpty()
+		u.SetAttributeKeyStrindex(i32())
+		u.SetUnitStrindex(i32())
+	}
+	for i, n := 0, e.tp.Draw(3); i < n; i++ {
+		l := pr.LinkTable().AppendEmpty()
+		l.SetTraceID(e.traceID())
+		l.SetSpanID(e.spanID())
+	}
+	pr.SetTime(e.ts())
+	pr.SetDuration(e.ts())
+	pr.SetStartTime(e.ts())
+	pr.PeriodType().SetTypeStrindex(i32())
+	pr.PeriodType().SetUnitStrindex(i32())
+	pr.PeriodType().SetAggregationTemporality(pprofile.AggregationTemporality(e.tp.Draw(3)))
+	pr.CommentStrindices().Append(i32())
+	pr.SetDefaultSampleTypeStrindex(i32())
+	pr.AttributeIndices().Append(i32())
+	pr.SetDroppedAttributesCount(uint32(e.tp.Draw(3)))
+	pr.SetOriginalPayloadFormat(e.str())
+	if e.tp.Chance(1, 2) {
+		pr.OriginalPayload().FromRaw([]byte{0x1f, 0x8b, 0, 0xff})
+	}
+	for q := 0; q < pr.Sample().Len(); q++ {
+		s := pr.Sample().At(q)
+		s.SetLocationsStartIndex(i32())
+		s.SetLocationsLength(i32())
+		s.AttributeIndices().Append(i32())
+		if e.tp.Chance(1, 2) {
+			s.SetLinkIndex(i32())
+		}
+		s.TimestampsUnixNano().Append(uint64(e.ts()))
 	}
 }
